@@ -28,3 +28,35 @@ Theorem C04_intergenic_nucs : forall ref que r2m inter v,
             v = mk_nuc (dec (nth (align_pos r2m p) ref 0)) (dec (nth (align_pos r2m p) que 0)) p.
 Proof. exact get_nucs_iff. Qed.
 Print Assumptions C04_intergenic_nucs.
+
+(* the codon loop of one region (length a multiple of 3): the positions mentioned by what it emits - its nuc: records
+   and the (nuc:...) lists of its aa: records - are EXACTLY the region's positions at which the reference and query
+   symbols test disjoint, in region order: none dropped, none invented; any region (strand, joins), any rows *)
+Theorem C04_codon_loop_mentions_exact : forall ref que r2m g,
+  (forall p, In p (g_pos g) -> (nth (align_pos r2m p) ref 0 =? 244) = false) ->
+  forall out, (length (g_pos g) mod 3 = 0)%nat ->
+  get_aas_traced ref que r2m g = Ok out -> flat_map snd out = filter (dis ref que r2m) (g_pos g).
+Proof. exact aa_mentions_exact. Qed.
+Print Assumptions C04_codon_loop_mentions_exact.
+
+(* before sorting: the merged list (indels, intergenic nucs, every region's records) mentions p iff p is a reference
+   position whose symbols test disjoint - this is where the coding/intergenic partition is used *)
+Theorem C04_merged_mentions_exact : forall ref que gs,
+  (forall g p, In g gs -> In p (g_pos g) -> (1 <= p <= length (filter nongap ref))%nat) ->
+  (forall g, In g gs -> (length (g_pos g) mod 3 = 0)%nat) ->
+  forall aas, all_aas ref que (ref_to_msa ref) gs = Ok aas -> forall p,
+  In p (flat_map snd (map (fun i => (mk_indel i, [])) (Indels.get_indels (cols_of_rows ref que)) ++
+                      map trace_nuc (get_nucs ref que (ref_to_msa ref) (inter_of gs (length (filter nongap ref)))) ++ aas)) <->
+  ((1 <= p <= length (filter nongap ref))%nat /\ dis ref que (ref_to_msa ref) p = true).
+Proof. exact merged_mentions_exact. Qed.
+Print Assumptions C04_merged_mentions_exact.
+
+(* after the stable sort and the duplicate removal nothing is invented: every position the final list mentions is a
+   reference position whose symbols test disjoint *)
+Theorem C04_nuc_mentions_sound : forall ref que gs,
+  (forall g p, In g gs -> In p (g_pos g) -> (1 <= p <= length (filter nongap ref))%nat) ->
+  (forall g, In g gs -> (length (g_pos g) mod 3 = 0)%nat) ->
+  forall out, variants_pair_traced ref que gs (inter_of gs (length (filter nongap ref))) = Ok out ->
+  forall p, In p (flat_map snd out) -> ((1 <= p <= length (filter nongap ref))%nat /\ dis ref que (ref_to_msa ref) p = true).
+Proof. exact nuc_mentions_sound. Qed.
+Print Assumptions C04_nuc_mentions_sound.
